@@ -14,6 +14,10 @@ Oracles on the implementation's own behaviour (debug and release build):
   O5  history independence: 2..4 configurations (the same delimiter strings in permuted roles, delimiter sets whose
       concatenations collide, prefixes of each other, with/without/swapped line prefixes) are built and used in ONE fresh
       process, interleaved in several orders; every use must equal the model of that configuration alone (mode 2).
+  O6  setter order: on a fresh Environment the setters (set_syntax, set_trim_blocks, set_lstrip_blocks, set_keep_trailing_newline
+      and 16 others: auto-escape callback, undefined behaviour, formatter, debug, fuel, recursion limit, loader, ...) are applied in
+      every permutation of every 3-subset (sampled 4-subsets, longer sequences with repeated settings); the rendering through
+      render_str and through add_template + get_template must be the model's / the specification's for the FINAL values (mode 3).
 """
 import os, sys, collections, itertools, json
 from concurrent.futures import ThreadPoolExecutor
@@ -458,6 +462,68 @@ def run_fresh(cases, release=False, workers=16):
 
 
 # ------------------------------------------------------------------------------------------------
+# SETTER ORDER family: a fresh Environment, its setters applied in every order.  What a template renders must depend on
+# the final value of each setting only (mode 3).  Setters 0..3 are the ones this property is about (set_syntax,
+# set_trim_blocks, set_lstrip_blocks, set_keep_trailing_newline); the others must not disturb them.
+# ------------------------------------------------------------------------------------------------
+SETTER_NAMES = ["set_syntax", "set_trim_blocks", "set_lstrip_blocks", "set_keep_trailing_newline", "set_auto_escape_callback",
+                "set_undefined_behavior", "set_formatter", "set_debug", "set_fuel", "set_recursion_limit", "set_loader",
+                "set_path_join_callback", "add_filter", "add_function", "add_test", "add_global", "set_unknown_method_callback",
+                "add_template_owned", "clear_templates", "remove_filter+remove_global"]
+SETTER_PROBE = [("text", "a\n  "), ("tag", 1, 0, 0), ("text", "\n b \r\n\t"), ("tag", 2, 0, 0), ("text", "\n"), ("tag", 0, 0, 0), ("text", "\n")]
+
+
+def setter_final(ops):
+    """(bits, custom syntax?) from the last value of each of the four settings"""
+    last = {}
+    for i, v in ops: last[i] = v
+    bits = (1 if last.get(1) else 0) | (2 if last.get(2) else 0) | (4 if last.get(3) else 0)
+    return bits, bool(last.get(0))
+
+
+def enc_setters(d, ops, segs):
+    out = [3, 0]
+    for x in d: out += S(x)
+    out.append(len(ops))
+    for i, v in ops: out += [i, v]
+    out.append(len(segs))
+    for sg in segs: out += enc_seg(sg)
+    return out
+
+
+def setter_cases(chk, rng, box):
+    fams = ["erb", "angle", "latex", "ov-hash", "shared"]
+    ids = list(range(len(SETTER_NAMES)))
+    def probe(d):
+        if rng.below(3) == 0: return SETTER_PROBE
+        for _ in range(20):
+            segs = rng.choice(box)
+            if valid(d, segs) and valid(FAM["default"], segs): return segs
+        return SETTER_PROBE
+    def val(i): return 1 if i < 4 and rng.below(5) != 0 else rng.below(2)
+    # every permutation of every 3-subset that touches one of the four settings (quick and thorough)
+    for sub in itertools.combinations(ids, 3):
+        if not any(i < 4 for i in sub): continue
+        vals = {i: val(i) for i in sub}
+        d = FAM[rng.choice(fams)]; segs = probe(d)
+        for perm in itertools.permutations(sub):
+            yield d, [(i, vals[i]) for i in perm], segs
+    # 4-subsets: all permutations (all subsets in thorough, a sample in quick)
+    subs4 = [x for x in itertools.combinations(ids, 4) if any(i < 4 for i in x)]
+    if not chk.thorough: subs4 = [rng.choice(subs4) for _ in range(150)]
+    for sub in subs4:
+        vals = {i: val(i) for i in sub}
+        d = FAM[rng.choice(fams)]; segs = probe(d)
+        for perm in itertools.permutations(sub):
+            yield d, [(i, vals[i]) for i in perm], segs
+    # longer sequences with settings set several times (only the last value counts)
+    for _ in range(20000 if chk.thorough else 2000):
+        d = FAM[rng.choice(fams)]
+        ops = [(lambda i: (i, rng.below(2)))(rng.choice(ids if rng.below(2) else [0, 1, 2, 3, 4])) for _ in range(5 + rng.below(6))]
+        yield d, ops, probe(d)
+
+
+# ------------------------------------------------------------------------------------------------
 # running one batch through implementation (debug, release), model, specification, theorem domain
 # ------------------------------------------------------------------------------------------------
 def run_batch(cases):
@@ -537,12 +603,14 @@ def main():
     # ---------------- case generation (streamed) ----------------
     # meta = (family name | explicit delimiter list, bits, segs) for mode 0; ("src", d, bits, src) for mode 1
     replay_history = None
+    replay_setters = None
     if chk.replay:
         rp0 = json.load(open(chk.replay))["replay"]
         if "history" in rp0: replay_history = rp0["history"]
+        if "setters" in rp0: replay_setters = rp0["setters"]
 
     def gen_metas():
-        if replay_history is not None:
+        if replay_history is not None or replay_setters is not None:
             return
         if chk.replay:
             rp = json.load(open(chk.replay))["replay"]
@@ -855,6 +923,41 @@ def main():
             hist["history-uses-compared-with-implementation-alone"] = sum(len(v) for v in need_alone.values())
     hist["history-uses-compared"] = h_uses
 
+
+    # SETTER ORDER: the Environment setters in every order; the rendering depends on the final values only
+    if replay_setters is not None:
+        scases = [(replay_setters["delimiters"], [tuple(x) for x in replay_setters["ops"]], [tuple(x) for x in replay_setters["segments"]])]
+    elif chk.replay: scases = []
+    else: scases = list(setter_cases(chk, rng, [x for x in itertools.islice(box3(False), 0, 60000, 37)]))
+    if scases:
+        senc = [enc_setters(d, ops, segs) for d, ops, segs in scases]
+        finals = [setter_final(ops) for d, ops, segs in scases]
+        ssingle = [enc(b, d if cust else FAM["default"], segs) for (d, ops, segs), (b, cust) in zip(scases, finals)]
+        with ThreadPoolExecutor(max_workers=4) as ex:
+            fd = ex.submit(run_lines, [bin_path("c10", False)], senc); fr = ex.submit(run_lines, [bin_path("c10", True)], senc)
+            fm = ex.submit(run_model, "C10", "c10", ssingle); fs = ex.submit(run_model, "C10", "c10-spec", ssingle)
+            sres = {False: fd.result(), True: fr.result()}; smod2 = fm.result(); sspec2 = fs.result()
+        evaluations += 2 * len(senc)
+        for k, (d, ops, segs) in enumerate(scases):
+            hist["class=setters"] += 1
+            mr = split_impl(smod2[k]); er, _ = split_spec(sspec2[k])
+            for rel in (False, True):
+                out = sres[rel][k]
+                good = bool(out) and out[0] == 5 and mr is not None and out[1:] == mr[0] + mr[0] and mr[0] == er
+                if not good:
+                    b, cust = finals[k]
+                    key = "setter-order"
+                    det = {"setters": {"delimiters": d, "ops": [list(x) for x in ops], "segments": [list(x) for x in segs]}, "case": senc[k],
+                           "order": ["%s(%d)" % (SETTER_NAMES[i], v) for i, v in ops], "profile": "release" if rel else "debug",
+                           "final_settings": {"trim_blocks": bool(b & 1), "lstrip_blocks": bool(b & 2), "keep_trailing_newline": bool(b & 4), "custom_syntax": cust},
+                           "source": unparse(d if cust else FAM["default"], segs), "implementation(render_str, add_template+get_template)": out,
+                           "expected_rendering_for_the_final_settings": er,
+                           "what": "the rendering depends on the order in which the Environment setters were called",
+                           "how": "./check C10 --replay <this file>"}
+                    if out and out[0] in ("CRASH", 2): det["what"] = "the engine panicked"
+                    old = viol.get(key)
+                    if old is None or len(old[1]["setters"]["ops"]) > len(ops): viol[key] = (None, det)
+
     # kernel cross-check of the extraction
     kern_ok, kern_n = True, 0
     if model_sample:
@@ -874,6 +977,7 @@ def main():
     chk.cov["in_theorem_domain"] = in_domain
     chk.cov["family_pairs_compared"] = fam_pairs
     chk.cov["history_sequences"] = len(hcases)
+    chk.cov["setter_orders"] = len(scases)
     chk.cov["history_uses_compared"] = h_uses
     chk.cov["distribution"] = dict(hist)
     chk.cov["samples"] = samples + src_samples
